@@ -228,7 +228,9 @@ impl Table {
         let partition_offset = self
             .next_partition_offset
             .fetch_add(buffer.len(), std::sync::atomic::Ordering::SeqCst);
-        let (new_partition, keys) = Partition::from_buffer(
+        // The columns are not put into the lru yet: until the partition has been written to storage,
+        // evicting them would discard the only copy (see `make_evictable`).
+        let (new_partition, _keys) = Partition::from_buffer(
             self.name(),
             part_id,
             buffer,
@@ -241,10 +243,18 @@ impl Table {
             arc_partition = Arc::new(new_partition);
             partitions.insert(part_id, arc_partition.clone());
         }
-        for (id, column) in keys {
-            self.lru.put(ColumnLocator::new(self.name(), id, &column));
-        }
         Some(arc_partition)
+    }
+
+    /// Registers the columns of a partition created by `batch` with the lru.
+    /// Called once the partition can be loaded again from storage.
+    pub(crate) fn make_evictable(&self, id: PartitionID) {
+        let partitions = self.partitions.read().unwrap();
+        if let Some(partition) = partitions.get(&id) {
+            for handle in partition.clone_column_handles() {
+                self.lru.put(handle.key().clone());
+            }
+        }
     }
 
     /// Determines if partitions should be compacted. If so, returns the maximal list of partitions to compact.
